@@ -208,3 +208,81 @@ Proof.
     + repeat constructor; simpl; lia.
     + intros i [<-|[]]; simpl; intuition congruence.
 Qed.
+
+(* ---- the node pool: Model/Pipeline.v's allocator against C12's pointer-level heap model ---------- *)
+From OV Require Model.Heap Proofs.HeapRep Proofs.Heap Proofs.PipelineHeap.
+From Coq Require Import ZArith.
+
+(* create with New() hands out the ID the pipeline allocator hands out (the counter + 1), and the
+   allocator read off the successor heap state is the pipeline allocator's successor state *)
+Theorem alloc_refines_create_fresh : forall caching s F acq ty data fs picks,
+  HeapRep.Rep caching s F -> PipelineHeap.Nonneg s acq ->
+  exists s', Heap.create caching s Heap.Fresh ty data fs = Heap.Ok (s', Heap.next_addr s) /\
+    fresh_node (PipelineHeap.abs_alloc caching s picks) picks
+      = (PipelineHeap.idN (Heap.heap s') (Heap.next_addr s), PipelineHeap.abs_alloc caching s' picks) /\
+    Heap.id_of (Heap.heap s') (Heap.next_addr s) = (Heap.next_id s + 1)%Z /\
+    PipelineHeap.Nonneg s' (Heap.id_of (Heap.heap s') (Heap.next_addr s) :: acq).
+Proof. exact PipelineHeap.create_fresh_sim. Qed.
+
+(* create taking the k-th pooled node (any k): the same, the ID is the one the node got when it
+   was recycled *)
+Theorem alloc_refines_create_pool : forall s F acq k a ty data fs picks,
+  HeapRep.Rep true s F -> PipelineHeap.Nonneg s acq -> nth_error (Heap.pool s) k = Some a ->
+  exists s', Heap.create true s (Heap.FromPool a) ty data fs = Heap.Ok (s', a) /\
+    create_node (PipelineHeap.abs_alloc true s (k :: picks))
+      = (PipelineHeap.idN (Heap.heap s') a, PipelineHeap.abs_alloc true s' picks) /\
+    Heap.id_of (Heap.heap s') a = Heap.id_of (Heap.heap s) a /\
+    PipelineHeap.Nonneg s' (Heap.id_of (Heap.heap s') a :: acq).
+Proof. exact PipelineHeap.create_pool_sim. Qed.
+
+(* RemoveAndReleaseTree of a live node (with its subtree of k nodes) is release k *)
+Theorem alloc_refines_remove : forall caching s F acq n picks,
+  HeapRep.Rep caching s F -> PipelineHeap.Nonneg s acq -> Heap.pre_b caching s F (Heap.ORemove n) = true ->
+  exists s' k, Heap.remove_and_release caching (Heap.fuel_of s) s n = Heap.Ok s' /\
+    PipelineHeap.abs_alloc caching s' picks = release k (PipelineHeap.abs_alloc caching s picks) /\
+    PipelineHeap.Nonneg s' acq.
+Proof. exact PipelineHeap.remove_sim. Qed.
+
+(* in every state reachable by ANY history of API-respecting operations (any pool choices,
+   pooling on or off): all IDs are non-negative and the allocator invariant holds, with
+   used = the IDs handed out so far *)
+Theorem heap_reachable_nonneg : forall caching s F acq,
+  Heap.reachable caching s F acq -> PipelineHeap.Nonneg s acq.
+Proof. exact PipelineHeap.reachable_nonneg. Qed.
+
+Theorem heap_reachable_AInv : forall caching s F acq picks,
+  Heap.reachable caching s F acq -> AInv (map Z.to_N acq) (PipelineHeap.abs_alloc caching s picks).
+Proof. exact PipelineHeap.reachable_AInv. Qed.
+
+(* ... hence caches_invisible with NO hypothesis on the hidden state and NO evaluator hypothesis:
+   C02 evaluator, C12 heap machine *)
+Section C13_Heap_C02.
+  Variable query : tree -> bytes -> path -> option (list path).
+  Variable ext : bytes -> option bytes.
+  Variable fsigs : bytes -> option fsig.
+  Variable fcall : tree -> bytes -> path -> list value -> cfres.
+  Variable pcall : tree -> bytes -> path -> cfres.
+  Hypothesis query_valid : forall root x p ps,
+    valid root p -> query root x p = Some ps -> Forall (valid root) ps.
+  Variable marshal : value -> option bytes.
+  Variable marshal_err_cont : bool.
+  Variable H : bytes -> bytes.
+  Variable canon : tree -> bytes.
+  Notation run_env_c02 :=
+    (run_env vdecl value unit (eval_c02 query ext fsigs fcall pcall) marshal marshal_err_cont H canon).
+
+  Theorem caches_invisible_c02_heap :
+    forall caching s F acq picks memo caching' s' F' acq' picks' memo' d ctx us,
+    Heap.reachable caching s F acq -> Heap.reachable caching' s' F' acq' ->
+    run_env_c02 (mkHid (PipelineHeap.abs_alloc caching s picks) memo tt) d ctx us =
+    run_env_c02 (mkHid (PipelineHeap.abs_alloc caching' s' picks') memo' tt) d ctx us.
+  Proof.
+    exact (PipelineHeap.caches_invisible_c02_heap query ext fsigs fcall pcall query_valid marshal marshal_err_cont H canon).
+  Qed.
+End C13_Heap_C02.
+
+(* non-vacuity: the initial heap state is reachable, and its abstraction is the fresh allocator *)
+Example c13_heap_nonvacuous :
+  Heap.reachable true Heap.init [] [] /\
+  PipelineHeap.abs_alloc true Heap.init [2; 0] = mkA 0%N [] true [2; 0].
+Proof. split; [constructor|reflexivity]. Qed.
